@@ -60,10 +60,10 @@ theorem witness_regression :
 
 /-! ### the composition theorem: every schedule of every pipeline of flowActor-backed stages -/
 
-/-- pipelines covered by the composition theorem: every stage is backed by a flowActor (Map, TryMap,
-    Filter, FlatMap, Flatten, Scan, Deduplicate, Buffer, list-sum) — Batch and the parallel stages are modelled
-    and tied by replay but not yet inside the composition proof -/
-def flowPipeline (stages : List Stage) : Prop := ∀ st ∈ stages, st.isFlow = true
+/-- pipelines covered by the composition theorem: Map, TryMap, Filter, FlatMap, Flatten, Scan, Deduplicate,
+    Buffer, list-sum (flowActor-backed) and Batch — the parallel stages are modelled and tied by replay but are
+    not yet inside the composition proof -/
+def flowPipeline (stages : List Stage) : Prop := ∀ st ∈ stages, Stage.covered st = true
 
 /-- the middle nodes `mkNet` builds -/
 def midsOf (fusion : Bool) (stages : List Stage) : List Node :=
@@ -127,19 +127,19 @@ theorem C45_partial (stages : List Stage) (input : List Val) (picks : List Pick)
   have hn := net_correct false stages input picks s h hs
   have hmids : midsOf false stages = stages.map mkNode := by simp [midsOf]
   have hFs : (rawNet (midsOf false stages) input).nodes.map midF =
-      midF (.src { rest := input }) :: ((stages.map fun st => xfRun st {}) ++ [midF (.sink defaultCfg {})]) := by
+      midF (.src { rest := input }) :: ((stages.map stageF) ++ [midF (.sink defaultCfg {})]) := by
     simp only [rawNet, hmids, List.map_cons, List.map_append, List.map_map, List.map_nil]
     congr 2
     apply List.map_congr_left
     intro st hst
     exact midF_mkNode st (h st hst)
-  have hlen : (midsOf false stages).length = (stages.map fun st => xfRun st {}).length := by simp [hmids]
+  have hlen : (midsOf false stages).length = (stages.map stageF).length := by simp [hmids]
   simp only at hn
   rw [hFs, hlen, idealAt_eq_semF, semF_eq_sem stages h] at hn
   exact hn
 
 /-! non-vacuity -/
-example : flowPipeline [.map 1, .filter 2 0, .scan, .buffer 3] := by
-  intro st hst; simp at hst; rcases hst with rfl | rfl | rfl | rfl <;> rfl
+example : flowPipeline [.map 1, .filter 2 0, .scan, .batch 3, .flatten, .buffer 3] := by
+  intro st hst; simp at hst; rcases hst with rfl | rfl | rfl | rfl | rfl | rfl <;> rfl
 
 end GoaktVerif.C45
